@@ -897,6 +897,21 @@ def outcross_case(draw):
     return {"r": r, "c": c, "cells": cells, "relabel": relabel, "rng": draw(real_rng)}
 
 
+@st.composite
+def outcross_dense_case(draw):
+    """3-6 crosses of 3-4 parents filled from 2-4 individuals with very uneven shares: repeats are forced in several crosses at
+    once, so the descent has to move an individual out of a cross and, later, back into it"""
+    r = draw(st.integers(3, 6))
+    c = draw(st.integers(3, 4))
+    nsym = draw(st.integers(2, 4))
+    pool = []
+    for sym in range(nsym):
+        pool += [sym] * draw(st.sampled_from([1, 1, 2, 3, 5, 8]))
+    cells = [draw(st.sampled_from(pool)) for _ in range(r * c)]
+    relabel = draw(st.sampled_from(["identity", "spread"]))
+    return {"r": r, "c": c, "cells": cells, "relabel": relabel, "rng": draw(real_rng)}
+
+
 def check_outcross(case, ctx):
     r, c = case["r"], case["c"]
     cells = [int(v) if case["relabel"] == "identity" else 1000 - 37 * int(v) for v in case["cells"]]
@@ -1248,6 +1263,10 @@ SUBCHECKS = [
     SubCheck("outcross", check_outcross, outcross_case(), quick=1200, thorough=5000, shards_quick=2,
              rule="generated tables 1-6 x 1-4 over 1-6 symbols; non-trivial = at least one duplicate removed",
              required_labels=("duplicates_removed", "irreducible_duplicates_remain", "already_optimal_with_duplicates")),
+    SubCheck("outcross_dense", check_outcross, outcross_dense_case(), quick=1500, thorough=8000, shards_quick=4,
+             rule="generated tables 3-6 x 3-4 over 2-4 individuals with very uneven shares (repeats forced in several crosses at "
+                  "once); non-trivial = at least one duplicate removed",
+             required_labels=("duplicates_removed", "irreducible_duplicates_remain")),
     SubCheck("outcross_wide", check_outcross_wide, outcross_wide_case(), quick=16, thorough=400, shards_quick=6,
              shrink_s=20.0,
              rule="generated wide tables (2 x 12-60, 3 x 12-36, 4 x 12-28) with heavy repetition: candidate list with "
